@@ -17,6 +17,7 @@ pub mod c07;
 pub mod c14;
 pub mod c15;
 pub mod c16;
+pub mod c16engine;
 pub mod c17;
 pub mod c18;
 
